@@ -1,5 +1,5 @@
-(** C05 — proofs, part 10 (completeness): a document that respects every rule (specification reading), whose
-    directive applications are well formed, and whose additional arguments are nullable, gets no diagnostic
+(** C05 — proofs, part 10 (completeness): a document that respects every rule and whose
+    directive applications are well formed gets no diagnostic
     from any check except possibly the directive-recursion search (part 11). *)
 From V Require Import Base.Util Gql.Ast C05.Model C05.Spec C05.Proofs C05.Proofs2 C05.Proofs3 C05.Proofs4 C05.Proofs5 C05.Proofs9.
 
@@ -40,7 +40,6 @@ Section Complete.
   Hypothesis HR : forall r, rule_ok_gen b r doc = true.
   Hypothesis Hau : ok_app_arg_unique doc = true.
   Hypothesis Hne : ok_app_args_nonempty doc = true.
-  Hypothesis HK : ok_extra_args_nullable doc = true.
 
   Lemma arg_list_facts l :
     In l (all_arg_lists doc) ->
@@ -98,7 +97,7 @@ Section Complete.
     pose proof (HR RDirectiveUnknown) as H1. pose proof (HR RDirectiveMisplaced) as H2.
     pose proof (HR RDirectiveRepeated) as H3. pose proof (HR RDirectiveArgs) as H4. cbn [rule_ok_gen] in *.
     unfold ok_directive_unknown in H1. unfold ok_directive_misplaced in H2. unfold ok_directive_repeated in H3.
-    unfold ok_directive_args_gen in H4. unfold ok_app_arg_unique in Hau. unfold ok_app_args_nonempty in Hne.
+    unfold ok_directive_args, ok_directive_args_gen in H4. unfold ok_app_arg_unique in Hau. unfold ok_app_args_nonempty in Hne.
     rewrite forallb_forall in H1, H2, H3, H4, Hau, Hne.
     specialize (H1 la Hla). specialize (H2 la Hla). specialize (H3 la Hla). specialize (H4 la Hla). specialize (Hau la Hla). specialize (Hne la Hla).
     rewrite forallb_forall in H1, H2, H3, H4, Hau, Hne.
@@ -107,7 +106,7 @@ Section Complete.
     exists def. split; [reflexivity|]. split; [exact H2|]. split.
     - pose proof (lookup_d_In _ _ _ L) as [Hdin _].
       destruct (arg_list_facts _ (directive_arg_list def Hdin)) as [Hnd Hfacts].
-      apply (check_arguments_complete doc b); try assumption.
+      apply (check_arguments_complete doc); try assumption.
       + pose proof (HR RDupInputField) as H; exact H.
       + pose proof (HR RUnknownType) as H; exact H.
       + pose proof (HR ROutputInInput) as H; exact H.
@@ -215,7 +214,7 @@ Section Complete.
     pose proof (P _ _ (HR RIfaceFieldType) eq_refl) as A2. cbn beta in A2.
     pose proof (P _ _ (HR RIfaceArgMissing) eq_refl) as A3. cbn beta in A3.
     pose proof (P _ _ (HR RIfaceArgType) eq_refl) as A4. cbn beta in A4.
-    pose proof (P _ _ HK eq_refl) as A5. cbn beta in A5.
+    pose proof (P _ _ (HR RIfaceExtraRequiredArg) eq_refl) as A5. cbn beta in A5.
     rewrite find_fielddef_named. destruct (field_named fs (iname (fd_name jf))) as [f|] eqn:F; [|discriminate].
     assert (Hfall : In f (all_fields doc)).
     { apply In_all_fields. exists (n, impls, fs). split; [exact Hc|]. unfold field_named in F. apply find_some in F. tauto. }
@@ -229,12 +228,12 @@ Section Complete.
       destruct (arg_named (args_of (fd_args f)) (iname (iv_name ja))) as [fa|]; [|discriminate].
       rewrite ty_is_same_same, A4. reflexivity. }
     assert (E2 : flat_map (fun fa => if forallb (fun ia => negb (str_eqb (iname (iv_name ia)) (iname (iv_name fa)))) (args_of (fd_args jf))
-                  then (if ty_is_nonnull (iv_type fa) then [err (ArgumentTypeNonNullAgainstInterface (iname (fst (fst j)))) (ipos (iv_name fa))] else [])
+                  then (if iv_required fa then [err (ArgumentTypeNonNullAgainstInterface (iname (fst (fst j)))) (ipos (iv_name fa))] else [])
                   else []) (args_of (fd_args f)) = []).
     { apply flat_map_nil. intros fa Hfa. specialize (A5 fa Hfa).
       destruct (forallb (fun ia => negb (str_eqb (iname (iv_name ia)) (iname (iv_name fa)))) (args_of (fd_args jf))) eqn:Fo; [|reflexivity].
       apply find_none_forall in Fo. unfold arg_named in A5. rewrite Fo in A5. apply negb_true_iff in A5.
-      unfold ty_nonnull in A5. unfold ty_is_nonnull. rewrite A5. reflexivity. }
+      rewrite iv_required_is, A5. reflexivity. }
     rewrite E1, E2. cbn [app].
     pose proof (HR RUnknownType) as H2. cbn [rule_ok_gen] in H2. unfold ok_unknown_type in H2. rewrite !andb_true_iff in H2.
     destruct H2 as [[[[H2 _] _] _] _]. rewrite forallb_forall in H2.
